@@ -201,6 +201,26 @@ type EnvFuncs struct {
 	}
 }
 
+// protobuf-style bookkeeping fields (docgen leaves `XXX_…` out of the fields of a documented type)
+type ZProto struct {
+	Name             string
+	XXX_unrecognized []byte
+	XXX_sizecache    int32
+}
+
+func (ZProto) XXX_Size() int { return 0 }
+func (ZProto) Size() int     { return 0 }
+
+// ... and at the top level of an environment
+type EnvProto struct {
+	Name             string
+	XXX_unrecognized []byte
+	Pb               ZProto
+	PPb              *ZProto
+}
+
+func (EnvProto) XXX_Merge(i int) int { return i }
+
 // nested members
 type EnvNested struct {
 	A   EnvDepth
@@ -221,6 +241,9 @@ type EnvNested struct {
 	MC  EnvMethClash
 	U   EnvUnexported
 	Fn  EnvFuncs
+	MIf map[interface{}]int // key type interface{}: a string constant is a usable key (MIf.k)
+	MSg map[ZStringer]int   // key type a non-empty interface: it is not
+	Pb  ZProto
 	PFn *EnvFuncs // function-typed fields behind a pointer: PFn.F(1)
 	Sg  ZStringer // a non-empty interface: Sg.String() has no receiver parameter
 }
@@ -282,6 +305,8 @@ type EnvScalars struct {
 	Nf   ZNamedFast                       // named func type of the fast shape: not fast
 	Fe   func(...interface{}) error       // result of interface kind, but not interface{}: not fast
 	Fg   func(...ZStringer) interface{}   // variadic over a non-empty interface: not fast
+	PS   *[]int                           // pointer to a slice
+	PA   *[3]int                          // pointer to an array
 	PPSt **ZA                             // two pointer levels
 	Sg   ZStringer                        // a non-empty interface ...
 	Zs   zstr                             // ... and a type implementing it (assignable one way only)
@@ -341,7 +366,7 @@ func zooShapes() []interface{} {
 	return []interface{}{
 		EnvShadowBefore{}, EnvShadowAfter{}, EnvAmbig{}, EnvDepth{}, EnvDepthRev{}, EnvDepth3{}, EnvAmbigDeep{},
 		EnvPtrEmb{}, EnvNameClashA{}, EnvNameClashB{}, EnvUnexported{}, EnvEmbScalar{}, EnvMeth{}, EnvPromV{}, EnvPromP{},
-		EnvMethClash{}, EnvMethVsField{}, EnvMethShadowsField{}, EnvEmbIface{}, EnvFuncs{}, EnvNested{}, EnvRec{}, EnvScalars{},
+		EnvMethClash{}, EnvMethVsField{}, EnvMethShadowsField{}, EnvEmbIface{}, EnvFuncs{}, EnvNested{}, EnvRec{}, EnvProto{}, EnvScalars{},
 	}
 }
 
